@@ -11,6 +11,7 @@ open('/var/tmp/try/%s/unit.rs'%sys.argv[2],'w').write(ub.text)
 PY
 cd /var/tmp/try/$H
 PFX=$(grep -m1 '^//@harness-prefix' unit.rs | awk '{print $2}'); PFX=${PFX:-u::vharness::}
+ulimit -v 20000000
 ( time RUSTFLAGS="--edition 2024" timeout $TO kani unit.rs --harness ${PFX}$H --exact "$@" ) > /var/tmp/try/$H.log 2>&1
 echo "exit=$?" >> /var/tmp/try/$H.log
 grep -E "^VERIFICATION|^Verification Time|^exit=|^real|Status: FAILURE|^error" /var/tmp/try/$H.log | head -20
